@@ -4,7 +4,7 @@ import itertools
 from .. import shapes as S
 from ..core import Case
 from .common import place, CTX
-from .c02 import assignments, assignments_k, WIDE
+from .c02 import assignments, assignments_k, WIDE, VERYWIDE, verywide_assignments
 
 CFGS = {'C': 'Clone', 'CC': 'Copy, Clone', 'CC2': 'Clone, Copy'}
 
@@ -97,6 +97,16 @@ def generate(tier):
             alph = 'o' if (sh.kind == 'struct' and cfg != 'C') else 'om'
             for assign in assignments_k(sh, alph, 2 if tier == 'quick' else 3):
                 cases.append(build(sh, assign, cfg))
+    for sh in VERYWIDE:
+        for cfg in ('C', 'CC'):
+            alph = 'o' if (sh.kind == 'struct' and cfg != 'C') else 'om'
+            for assign in verywide_assignments(sh, alph):
+                cases.append(build(sh, assign, cfg))
+    from .common import rawify
+    for c in [x for x in cases if x.key.startswith('C07|C|s:n2|') or x.key.startswith('C07|C|e:n2,n1|') or x.key.startswith('C07|CC|e:n1,n2|')]:
+        r_ = rawify(c)
+        if r_:
+            cases.append(r_)
     # unions (fields must be Copy; only `Copy, Clone` is documented)
     for n in (1, 2, 3):
         sh = S.Shape('union', [S.Fields('n', n)])
